@@ -243,6 +243,21 @@ def _search_let_release(here, out):
     return None, "let-release: HOLDS"
 
 
+def _search_drop_shared(here, out):
+    """hand-assembled bytecode: closed task closures capturing (shared) closures are run and dropped through the FFI handle"""
+    exe, err = _build("ffi_serde", here, out)
+    if exe is None:
+        return None, "replay harness does not build against the current tree: " + err[-400:]
+    try:
+        p = subprocess.run([exe, "drop-shared"], capture_output=True, text=True, timeout=300)
+    except subprocess.TimeoutExpired:
+        return None, "replay timeout"
+    m = re.search(r"FAILS (C12\[.*?\]) index=(\d+) (.*)", p.stdout)
+    if m:
+        return {"cmd": ["ffi_replay", "drop-shared", m.group(2)], "value": m.group(3)[:500], "clause": m.group(1)}, ""
+    return None, p.stdout.strip()[-200:]
+
+
 def _search_exchange(here, out):
     """VM against WASM on programs that need many state exchange buffers next to static temporaries"""
     exe, err = _build("ffi_serde", here, out)
@@ -258,7 +273,7 @@ def _search_exchange(here, out):
     return None, p.stdout.strip()[-200:]
 
 
-SEARCHERS = {"let_release": _search_let_release, "exchange": _search_exchange, "type_serde": _search_type_serde, "state_tree": lambda here, out: _search_state_tree(here, out, 4), "ffi_serde": _search_ffi, "parser": _search_parser, "privacy": _search_privacy, "sched": _search_sched, "boxed": _search_boxed, "cst": _search_cst, "layout": _search_layout, "schedvm": _search_schedvm}
+SEARCHERS = {"drop_shared": _search_drop_shared, "let_release": _search_let_release, "exchange": _search_exchange, "type_serde": _search_type_serde, "state_tree": lambda here, out: _search_state_tree(here, out, 4), "ffi_serde": _search_ffi, "parser": _search_parser, "privacy": _search_privacy, "sched": _search_sched, "boxed": _search_boxed, "cst": _search_cst, "layout": _search_layout, "schedvm": _search_schedvm}
 TOOLS = {"st_replay": "state_tree", "ffi_replay": "ffi_serde", "parser_replay": "parser"}
 
 
